@@ -166,34 +166,41 @@ theorem mirror_dual_exon_read_profile_gene_partial (L δ : Int) (K R : List Iv) 
   (mirror_dual_constructOverlapping_gene_partial L δ K R gr M (fun a b => contains a b) pa pt hδ hyp hE
     (fun k _ => contains_mirror_invariant L M k) hA hT).1
 
-/-- the intron profile of a read (`absence_condition = overlaps_at_least · · absδ` of the mapped span): the mapped span
-    must not be in an end tie (`EndTie`, Props/C11.lean) with a known intron — exactly the class on which the absence
-    test itself is not mirror-symmetric -/
+/-- the intron profile of a read (`absence_condition = overlaps_at_least · · absδ` of the mapped span): like the exon
+    profile, no condition on the absence test is left since the repair of audit2-C G7 (`mirror_dual_overlaps_at_least`
+    holds for all intervals; before it the mapped span must not be in an `EndTie` with a known intron, see the
+    `…buggy_witness` below) -/
 theorem mirror_dual_intron_read_profile_gene_partial (L δ absδ : Int) (K R : List Iv) (gr M : Iv) (pa pt : Int)
-    (hδ : 0 ≤ δ) (hyp : Hyp δ K R) (hE : SortedEnds K) (hM : M.1 ≤ M.2)
-    (hTie : ∀ k ∈ K, ¬ IsoVerif.Props.C11.EndTie M k absδ)
+    (hδ : 0 ≤ δ) (hyp : Hyp δ K R) (hE : SortedEnds K)
     (hA : pa ≠ -1 → L + 1 - pa ≠ -1) (hT : pt ≠ -1 → L + 1 - pt ≠ -1) :
     (constructOverlapping (mirrorL L K) (mirrorIv L gr) (fun a b => equal_ranges a b δ)
         (fun a b => overlaps_at_least a b absδ) δ (mirrorL L R) (mirrorIv L M) (mirrorPos L pt) (mirrorPos L pa)).gene
       = (constructOverlapping K gr (fun a b => equal_ranges a b δ) (fun a b => overlaps_at_least a b absδ) δ R M pa pt).gene.reverse :=
   (mirror_dual_constructOverlapping_gene_partial L δ K R gr M (fun a b => overlaps_at_least a b absδ) pa pt hδ hyp hE
-    (fun k hk => IsoVerif.Props.C11.overlaps_at_least_mirror_partial L M k absδ hM
-      (by have := hyp.long k hk; omega) (hTie k hk)) hA hT).1
+    (fun k _ => IsoVerif.Props.C11.mirror_dual_overlaps_at_least L M k absδ) hA hT).1
 
 example : Hyp 4 [(201, 299), (401, 499)] [(201, 299), (401, 499)] ∧ SortedEnds [(201, 299), (401, 499)] ∧
-    (∀ k ∈ [((201 : Int), (299 : Int)), (401, 499)], ¬ IsoVerif.Props.C11.EndTie (100, 600) k 20) ∧
     (constructOverlapping (mirrorL 1000 [(201, 299), (401, 499)]) (mirrorIv 1000 (100, 600)) (fun a b => equal_ranges a b 4)
         (fun a b => overlaps_at_least a b 20) 4 (mirrorL 1000 [(201, 299), (401, 499)]) (mirrorIv 1000 (100, 600))
         (mirrorPos 1000 (-1)) (mirrorPos 1000 (-1))).gene = [1, 1] := by
   refine ⟨⟨by simp [SortedStarts], by simp [LongerThan], by simp [SepBy], by simp [WFR]⟩, by simp [SortedEnds],
-    by decide, by decide +kernel⟩
+    by decide +kernel⟩
 
-/-- the end-tie hypothesis is needed: a mapped span (1,5) sharing the LEFT end of the known intron (1,9) marks it
-    absent (−1), its mirror image sharing the RIGHT end does not (0) -/
-theorem intron_read_profile_end_tie_witness :
+/-- regression of the fixed end tie: a mapped span (1,5) sharing the LEFT end of the known intron (1,9) marks it absent
+    (−1), and so does its mirror image (5,9) sharing the RIGHT end -/
+theorem intron_read_profile_end_tie_regression :
     (constructOverlapping (mirrorL 9 [(1, 9)]) (mirrorIv 9 (1, 9)) (fun a b => equal_ranges a b 0)
-        (fun a b => overlaps_at_least a b 10) 0 (mirrorL 9 []) (mirrorIv 9 (1, 5)) (mirrorPos 9 (-1)) (mirrorPos 9 (-1))).gene
-      ≠ (constructOverlapping [(1, 9)] (1, 9) (fun a b => equal_ranges a b 0) (fun a b => overlaps_at_least a b 10) 0
+        (fun a b => overlaps_at_least a b 10) 0 (mirrorL 9 []) (mirrorIv 9 (1, 5)) (mirrorPos 9 (-1)) (mirrorPos 9 (-1))).gene = [-1] ∧
+    (constructOverlapping [(1, 9)] (1, 9) (fun a b => equal_ranges a b 0) (fun a b => overlaps_at_least a b 10) 0
+          [] (1, 5) (-1) (-1)).gene.reverse = [-1] := by
+  decide +kernel
+
+/-- with the PRE-FIX absence test the statement was false on end ties: the mapped span (1,5) marks the intron (1,9) absent
+    (−1), its mirror image does not (0) -/
+theorem intron_read_profile_end_tie_buggy_witness :
+    (constructOverlapping (mirrorL 9 [(1, 9)]) (mirrorIv 9 (1, 9)) (fun a b => equal_ranges a b 0)
+        (fun a b => overlapsAtLeastBuggy a b 10) 0 (mirrorL 9 []) (mirrorIv 9 (1, 5)) (mirrorPos 9 (-1)) (mirrorPos 9 (-1))).gene
+      ≠ (constructOverlapping [(1, 9)] (1, 9) (fun a b => equal_ranges a b 0) (fun a b => overlapsAtLeastBuggy a b 10) 0
           [] (1, 5) (-1) (-1)).gene.reverse := by
   decide +kernel
 
